@@ -462,13 +462,21 @@ def c01(rec, table=None):
     if pb is not None:
         xl = np.asarray(pb.bounds.xl, float)
         xu = np.asarray(pb.bounds.xu, float)
+        # "up to floating-point rounding": a trial point is x_best + step, where x_best is an earlier trial point
+        # and the step is limited by xl - x_best and xu - x_best; the rounding of these operations is relative to
+        # the magnitude of x_best (an unbounded objective drives the iterates to 1e18 and beyond), so the slack
+        # follows the largest magnitude seen so far in each coordinate
+        mag = np.zeros(xl.shape)
+        mags = {}
         for p in rec.pcalls:
             x = p["x"]
             if x.shape != xl.shape:
                 continue
+            mag = np.maximum(mag, np.where(np.isfinite(x), np.abs(x), 0.0))
+            mags[p["idx"]] = mag
             slack = 10 * EPS * max(x.size, 1) * np.maximum(
-                1.0, np.maximum(np.abs(x), np.maximum(np.where(np.isfinite(xl), np.abs(xl), 0.0),
-                                                      np.where(np.isfinite(xu), np.abs(xu), 0.0))))
+                1.0, np.maximum(mag, np.maximum(np.where(np.isfinite(xl), np.abs(xl), 0.0),
+                                                np.where(np.isfinite(xu), np.abs(xu), 0.0))))
             exc = float(max(np.max(xl - x - slack, initial=-INF), np.max(x - xu - slack, initial=-INF)))
             if exc > 0:
                 over = float(max(np.max(xl - x, initial=0.0), np.max(x - xu, initial=0.0)))
@@ -491,7 +499,8 @@ def c01(rec, table=None):
                     continue
                 img = p["x"] * sf + sh
                 got = ux[~fi]
-                slack = 10 * EPS * max(n, 1) * np.maximum(1.0, np.abs(img) + np.abs(sh))
+                slack = 10 * EPS * max(n, 1) * np.maximum(1.0, np.abs(img) + np.abs(sh)
+                                                          + mags.get(p["idx"], 0.0) * np.abs(sf))
                 if np.any(np.abs(img - got) > slack):
                     out.append(V(f"measured-elsewhere:{p['kind']}",
                                  f"{p['kind']} trial point (evaluation {p['idx'] + 1}) was evaluated at a point "
